@@ -42,8 +42,9 @@ type srcEnt struct {
 type vector struct {
 	Kind string `json:"kind"` // func | mod
 	// func
-	F   shape `json:"f"`
-	Ids []int `json:"ids"` // LLVM numbering in flat order: params, then per block label, insts, term; -1 = none
+	F    shape  `json:"f"`
+	Form string `json:"form"` // spelling of the call-like values: short long longva bitcast asm tail addrspace
+	Ids  []int  `json:"ids"` // LLVM numbering in flat order: params, then per block label, insts, term; -1 = none
 	// mod
 	Src     []srcEnt `json:"src"`
 	Textual []int    `json:"textual"` // number LLVM reads in the input text, per definition
@@ -60,6 +61,9 @@ func (v vector) key() string {
 		return sb.String()
 	}
 	sb.WriteString("func:")
+	if v.Form != "" && v.Form != "short" {
+		sb.WriteString(v.Form + ":")
+	}
 	fmt.Fprintf(&sb, "%q", v.F.Params)
 	for _, b := range v.F.Blocks {
 		fmt.Fprintf(&sb, "|%q", b.Name)
@@ -81,6 +85,7 @@ type item struct {
 	res      string // value | void | none
 	num      int    // the number the specification gives it, -1 = none
 	op       string // add call callvoid store fence ret br invoke callbr catchswitch catchpad landingpad unreachable switch
+	form     string // call-like values: how the callee is written (see callText)
 	scaffold bool   // added by the harness (always named or without result)
 	target   *pblock
 	cs       *item // catchpad: its catchswitch
@@ -163,10 +168,12 @@ func makePlan(fname string, v vector) *plan {
 			default:
 				mbt.Infra("vector with unknown result class %q", in.Res)
 			}
+			it.form = formFor(it.op, v.Form)
 			it.num = next()
 			pb.insts = append(pb.insts, it)
 		}
 		t := &item{kind: "term", res: b.Term.Res, name: cname(b.Term.Name, k), op: b.Term.K}
+		t.form = formFor(t.op, v.Form)
 		t.num = next()
 		if t.op == "invoke" {
 			anyInvoke = true
@@ -276,17 +283,78 @@ func explicitIn(mode int, it *item) bool {
 	return false
 }
 
-const prelude = "@sink = global i32 0\n\ndeclare i32 @__gxx_personality_v0(...)\n\ndeclare void @vf()\n\ndeclare i32 @vi()\n\n"
+const prelude = "@sink = global i32 0\n\ndeclare i32 @__gxx_personality_v0(...)\n\ndeclare void @vf()\n\ndeclare i32 @vi()\n\n" +
+	"declare void @vfa(i32)\n\ndeclare i32 @via(i32)\n\ndeclare void @vfv(...)\n\ndeclare i32 @viv(...)\n\n" +
+	"declare void @vf1() addrspace(1)\n\ndeclare i32 @vi1() addrspace(1)\n\n"
+
+// formFor returns the spelling used for a call-like value of the given op: the
+// vector's form where it exists for that kind, "short" otherwise.
+func formFor(op, form string) string {
+	ok := map[string][]string{
+		"call":     {"long", "longva", "bitcast", "asm", "tail", "addrspace"},
+		"callvoid": {"long", "longva", "bitcast", "asm", "tail", "addrspace"},
+		"invoke":   {"long", "longva", "bitcast", "addrspace"},
+		"callbr":   {"long"},
+	}
+	for _, f := range ok[op] {
+		if f == form {
+			return form
+		}
+	}
+	if _, callLike := ok[op]; callLike {
+		return "short"
+	}
+	return ""
+}
+
+// callText spells the callee part of a call-like value: `<type> <callee>(<args>)`
+// preceded by the optional address space, for a void or an i32 result.
+func callText(form string, void bool) string {
+	ty, f := "i32", "i"
+	if void {
+		ty, f = "void", "f"
+	}
+	switch form {
+	case "long": // full function type, non-variadic
+		return ty + " (i32) @v" + f + "a(i32 7)"
+	case "longva": // full function type, variadic
+		return ty + " (...) @v" + f + "v()"
+	case "bitcast": // callee is a constant expression
+		return ty + " bitcast (" + ty + " (...)* @v" + f + "v to " + ty + " ()*)()"
+	case "addrspace":
+		return "addrspace(1) " + ty + " @v" + f + "1()"
+	}
+	return ty + " @v" + f + "()"
+}
+
+func asmText(long, void bool) string {
+	ty, con := "i32", "=r"
+	if void {
+		ty, con = "void", ""
+	}
+	if long {
+		ty += " ()"
+	}
+	return ty + " asm \"\", \"" + con + "\"()"
+}
 
 func opText(it *item) string {
 	lbl := func(b *pblock) string { return "label " + b.label.ident() }
 	switch it.op {
 	case "add":
 		return "add i32 1, 2"
-	case "call":
-		return "call i32 @vi()"
-	case "callvoid":
-		return "call void @vf()"
+	case "call", "callvoid":
+		void := it.op == "callvoid"
+		switch it.form {
+		case "asm":
+			return "call " + asmText(false, void)
+		case "tail":
+			if void {
+				return "tail call " + callText("short", void)
+			}
+			return "notail call " + callText("short", void)
+		}
+		return "call " + callText(it.form, void)
 	case "store":
 		if it.stored != nil {
 			return "store i32 " + it.stored.ident() + ", i32* @sink"
@@ -305,15 +373,9 @@ func opText(it *item) string {
 	case "br":
 		return "br " + lbl(it.target)
 	case "invoke":
-		if it.res == "void" {
-			return "invoke void @vf()\n\t\tto " + lbl(it.target) + " unwind label %lpad"
-		}
-		return "invoke i32 @vi()\n\t\tto " + lbl(it.target) + " unwind label %lpad"
+		return "invoke " + callText(it.form, it.res == "void") + "\n\t\tto " + lbl(it.target) + " unwind label %lpad"
 	case "callbr":
-		if it.res == "void" {
-			return "callbr void asm \"\", \"\"()\n\t\tto " + lbl(it.target) + " []"
-		}
-		return "callbr i32 asm \"\", \"=r\"()\n\t\tto " + lbl(it.target) + " []"
+		return "callbr " + asmText(it.form == "long", it.res == "void") + "\n\t\tto " + lbl(it.target) + " []"
 	case "catchswitch":
 		return "catchswitch within none [" + lbl(it.handler) + "] unwind to caller"
 	case "switch":
@@ -380,6 +442,8 @@ type env struct {
 	sink         *ir.Global
 	pers, vf, vi *ir.Func
 	asmV, asmI   *ir.InlineAsm
+	// callees of the other spellings: with a parameter, variadic, in address space 1
+	vfa, via, vfv, viv, vf1, vi1 *ir.Func
 }
 
 func newEnv() *env {
@@ -391,11 +455,57 @@ func newEnv() *env {
 	e.vi = e.m.NewFunc("vi", types.I32)
 	e.asmV = ir.NewInlineAsm(types.NewPointer(types.NewFunc(types.Void)), "", "")
 	e.asmI = ir.NewInlineAsm(types.NewPointer(types.NewFunc(types.I32)), "", "=r")
+	e.vfa = e.m.NewFunc("vfa", types.Void, ir.NewParam("", types.I32))
+	e.via = e.m.NewFunc("via", types.I32, ir.NewParam("", types.I32))
+	e.vfv = e.m.NewFunc("vfv", types.Void)
+	e.vfv.Sig.Variadic = true
+	e.viv = e.m.NewFunc("viv", types.I32)
+	e.viv.Sig.Variadic = true
+	as1 := func(name string, ret types.Type) *ir.Func {
+		f := e.m.NewFunc(name, ret)
+		// NewFunc has already cached the pointer type for address space 0
+		f.AddrSpace = 1
+		f.Typ = nil
+		f.Type()
+		return f
+	}
+	e.vf1 = as1("vf1", types.Void)
+	e.vi1 = as1("vi1", types.I32)
 	return e
 }
 
 // objects maps the items of a plan to the IR objects that realise them.
 type objects map[*item]interface{}
+
+// callee returns the callee value and arguments that realise a spelling through the API.
+func (e *env) callee(form string, void bool) (value.Value, []value.Value, types.AddrSpace) {
+	pick := func(v, i *ir.Func) *ir.Func {
+		if void {
+			return v
+		}
+		return i
+	}
+	switch form {
+	case "long":
+		return pick(e.vfa, e.via), []value.Value{constant.NewInt(types.I32, 7)}, 0
+	case "longva":
+		return pick(e.vfv, e.viv), nil, 0
+	case "bitcast":
+		ret := types.Type(types.I32)
+		if void {
+			ret = types.Void
+		}
+		return constant.NewBitCast(pick(e.vfv, e.viv), types.NewPointer(types.NewFunc(ret))), nil, 0
+	case "asm":
+		if void {
+			return e.asmV, nil, 0
+		}
+		return e.asmI, nil, 0
+	case "addrspace":
+		return pick(e.vf1, e.vi1), nil, 1
+	}
+	return pick(e.vf, e.vi), nil, 0
+}
 
 func (pl *plan) build(e *env) (*ir.Func, objects) {
 	obj := objects{}
@@ -422,12 +532,21 @@ func (pl *plan) build(e *env) (*ir.Func, objects) {
 				x := ib.NewAdd(constant.NewInt(types.I32, 1), constant.NewInt(types.I32, 2))
 				x.SetName(it.name)
 				obj[it] = x
-			case "call":
-				x := ib.NewCall(e.vi)
-				x.SetName(it.name)
+			case "call", "callvoid":
+				void := it.op == "callvoid"
+				callee, args, as := e.callee(it.form, void)
+				x := ib.NewCall(callee, args...)
+				x.AddrSpace = as
+				if it.form == "tail" {
+					x.Tail = enum.TailTail
+					if !void {
+						x.Tail = enum.TailNoTail
+					}
+				}
+				if !void {
+					x.SetName(it.name)
+				}
 				obj[it] = x
-			case "callvoid":
-				obj[it] = ib.NewCall(e.vf)
 			case "store":
 				if it.stored != nil {
 					obj[it] = ib.NewStore(val(it.stored), e.sink)
@@ -469,11 +588,9 @@ func (pl *plan) build(e *env) (*ir.Func, objects) {
 		case "br":
 			obj[t] = ib.NewBr(blocks[t.target])
 		case "invoke":
-			callee := e.vi
-			if t.res == "void" {
-				callee = e.vf
-			}
-			x := ib.NewInvoke(callee, nil, blocks[t.target], blocks[pl.lpad])
+			callee, args, as := e.callee(t.form, t.res == "void")
+			x := ib.NewInvoke(callee, args, blocks[t.target], blocks[pl.lpad])
+			x.AddrSpace = as
 			x.SetName(t.name)
 			obj[t] = x
 		case "callbr":
